@@ -53,6 +53,25 @@ def run(F, rep):
             rep.ob("C10-S1", "%s scans the contig in a loop" % name, False, key="C10-S1 | %s | loop" % f.key)
             continue
         kparam = ("param", "k")
+        # S7: the scan position is the absolute index into the contig.  Every slice bound and every next start is computed
+        # from it, so the loop has to number the bases of the whole contig from 0: enumerate() applied directly to the
+        # contig's own iterator (an adaptor in between - skip, rev, step_by, filter - renumbers or drops positions), or a
+        # range loop 0..contig.len().
+        src = strip_tags(main["source"]) if main.get("source") is not None else None
+        okS7, whyS7 = False, "scan loop iterates %s" % (fmt(src) if src is not None else "?")
+        # adaptors applied AFTER enumerate only drop (position, base) pairs; the numbering stays absolute
+        while isinstance(src, tuple) and src[0] == "call" and re.search(r"Iterator::(skip|skip_while|filter|peekable|fuse|by_ref)$", src[1]) and src[2]:
+            src = strip_tags(src[2][0])
+        if isinstance(src, tuple) and src[0] == "call" and src[1].endswith("Iterator::enumerate") and len(src[2]) == 1:
+            inner = src[2][0]
+            if isinstance(inner, tuple) and inner[0] == "call" and re.search(r"(slice::<impl \[T\]>::iter|IntoIterator>::into_iter|Vec::<T, A>::iter|Deref>::deref)$", inner[1]) \
+                    and len(inner[2]) == 1 and _is_contig(f, inner[2][0]):
+                okS7 = True
+        elif main.get("range"):
+            lo, hi = main["range"]
+            okS7 = lo == ("const", 0) and isinstance(hi, tuple) and hi[0] == "call" and hi[1].endswith("::len") and _is_contig(f, hi[2][0])
+        rep.ob("C10-S7", "%s: the scan position numbers the bases of the whole contig from 0 (enumerate directly over the contig)" % name, okS7, detail=whyS7,
+               site=main["site"], key="C10-S7 | %s | absolute position" % f.key)
         news = [(bi, t) for bi, t in f.calls() if is_call(t, r"segment::Segment::new$")]
         inloop = [(bi, t) for bi, t in news if bi in main["body"]]
         after = [(bi, t) for bi, t in news if bi not in main["body"]]
@@ -235,6 +254,21 @@ def _start_by_cases(f, ex, e, kparam):
             return False, "segment_start = 0 in a branch whose guard does not imply pos + 1 <= k"
         return False, "segment_start = %s in one branch" % fmt(v)
     return True, "case split: (pos + 1) - k, or 0 where pos + 1 <= k"
+
+
+def _is_contig(f, e):
+    """the contig parameter itself (the first slice/Vec<u8> parameter), possibly behind a deref"""
+    e = strip_tags(e)
+    while isinstance(e, tuple) and e[0] == "call" and e[1].endswith("Deref>::deref") and len(e[2]) == 1:
+        e = e[2][0]
+    if not (isinstance(e, tuple) and e[0] == "param"):
+        return False
+    names = f.arg_names()
+    for i in range(1, f.d["arg_count"] + 1):
+        ty = f.locals[i]["ty"]
+        if re.search(r"\[u8\]|Vec<u8>", ty):
+            return names.get(i) == e[1]
+    return False
 
 
 def names_rev(f):
